@@ -501,6 +501,33 @@ func F6(yield func(Program)) {
 	yield(prog("F6defer", nil, FuncDecl("g", nil, d(1), Return(Int(1))), FuncDecl("f", nil, d(2), Return(Bin("+", callE("g"), Int(1)))), Expr(callE("f"))))
 	yield(prog("F6defer", nil, Expr(Call(Func("", nil, d(1), emitN(0)))), emitN(2)))
 	yield(prog("F6defer", nil, d(1)))
+	// every sequence of 1..3 deferred calls over the callee kinds (builtin, named script function,
+	// function literal, method of a captured list), ended by a normal return and by an error:
+	// all of them run, last registered first
+	kinds := []func(k int64) *N{
+		func(k int64) *N { return Defer(callE("emit", Int(k))) },
+		func(k int64) *N { return Defer(callE("note", Int(k))) },
+		func(k int64) *N { return Defer(Call(Func("", nil, emitE(Bin("+", Int(k), Int(100)))))) },
+		func(k int64) *N { return Defer(Meth(Id("l"), "append", Int(k))) },
+	}
+	var seqs func(cur []*N, n int)
+	seqs = func(cur []*N, n int) {
+		if len(cur) > 0 {
+			body := append([]*N{}, CloneBlock(cur)...)
+			yield(prog("F6defer", []string{"l"}, Var("l", List()), FuncDecl("note", P("k"), emitE(Bin("*", Id("k"), Int(10)))),
+				FuncDecl("f", nil, append(body, emitN(0), Return(Int(5)))...), Expr(List(callE("f"), Id("l")))))
+			body2 := append([]*N{}, CloneBlock(cur)...)
+			yield(prog("F6defer", []string{"l"}, Var("l", List()), FuncDecl("note", P("k"), emitE(Bin("*", Id("k"), Int(10)))),
+				FuncDecl("f", nil, append(body2, emitN(0), Expr(Index(List(), Int(3))))...), Expr(List(callE("try", Id("f"), Int(-1)), Id("l")))))
+		}
+		if n == 0 {
+			return
+		}
+		for _, mk := range kinds {
+			seqs(append(append([]*N{}, cur...), mk(int64(len(cur)+1))), n-1)
+		}
+	}
+	seqs(nil, 3)
 	yield(prog("F6defer", nil, ForRange("i", Int(2), d(1))))
 }
 
